@@ -22,6 +22,7 @@ Record cx := {
   done_closed : bool;
   dl_past : bool;         (* the wrapped connection's deadline is in the past *)
   ready : bool;           (* the wrapped operation can complete with data *)
+  half : bool;            (* the wrapped write has transferred part of its data and waits for the peer to take the rest *)
   op_n : Z;               (* result of the wrapped operation: bytes (1 stands for "some") *)
   op_timeout : bool;      (* the wrapped operation failed with a timeout *)
   ret_ctx_err : bool;     (* the operation returned the context's error *)
@@ -29,14 +30,14 @@ Record cx := {
 }.
 
 Definition cx0 : cx :=
-  {| mp := M0; wp := WNone; cancelled := false; done_closed := false; dl_past := false; ready := false;
+  {| mp := M0; wp := WNone; cancelled := false; done_closed := false; dl_past := false; ready := false; half := false;
      op_n := 0; op_timeout := false; ret_ctx_err := false; ret_n := 0 |}.
 
 Definition set_m (s : cx) (p : mpc) : cx :=
-  {| mp := p; wp := wp s; cancelled := cancelled s; done_closed := done_closed s; dl_past := dl_past s; ready := ready s;
+  {| mp := p; wp := wp s; cancelled := cancelled s; done_closed := done_closed s; dl_past := dl_past s; ready := ready s; half := half s;
      op_n := op_n s; op_timeout := op_timeout s; ret_ctx_err := ret_ctx_err s; ret_n := ret_n s |}.
 Definition set_w (s : cx) (p : wpc) : cx :=
-  {| mp := mp s; wp := p; cancelled := cancelled s; done_closed := done_closed s; dl_past := dl_past s; ready := ready s;
+  {| mp := mp s; wp := p; cancelled := cancelled s; done_closed := done_closed s; dl_past := dl_past s; ready := ready s; half := half s;
      op_n := op_n s; op_timeout := op_timeout s; ret_ctx_err := ret_ctx_err s; ret_n := ret_n s |}.
 
 (* events: 0-9 main steps, 10-19 watcher steps, 20-29 environment *)
@@ -46,7 +47,9 @@ Inductive cev :=
 | EM_close_done | EM_wait_return
 | EW_ctx | EW_done | EW_set_past | EW_recv_done | EW_restore
 | EN_cancel | EN_ready
-| EM_next.                             (* the caller starts the next operation with a fresh context *)
+| EM_next                              (* the caller starts the next operation with a fresh context *)
+| EM_op_partial                        (* the wrapped write returns some of the bytes and a timeout error *)
+| EN_half.                             (* the peer takes part of a pending write *)
 
 Definition cxstep (s : cx) (e : cev) : option cx :=
   match e with
@@ -58,29 +61,29 @@ Definition cxstep (s : cx) (e : cev) : option cx :=
       match mp s with
       | MOp => if ready s then
                  Some {| mp := M6; wp := wp s; cancelled := cancelled s; done_closed := done_closed s; dl_past := dl_past s;
-                         ready := false; op_n := 1; op_timeout := false; ret_ctx_err := false; ret_n := 0 |}
+                         ready := false; half := false; op_n := 1; op_timeout := false; ret_ctx_err := false; ret_n := 0 |}
                else None
       | _ => None
       end
   | EM_op_timeout =>
       match mp s with
-      | MOp => if dl_past s then
+      | MOp => if dl_past s && negb (half s) then
                  Some {| mp := M6; wp := wp s; cancelled := cancelled s; done_closed := done_closed s; dl_past := dl_past s;
-                         ready := ready s; op_n := 0; op_timeout := true; ret_ctx_err := false; ret_n := 0 |}
+                         ready := ready s; half := half s; op_n := 0; op_timeout := true; ret_ctx_err := false; ret_n := 0 |}
                else None
       | _ => None
       end
   | EM_close_done =>
       match mp s with
       | M6 => Some {| mp := M7; wp := wp s; cancelled := cancelled s; done_closed := true; dl_past := dl_past s;
-                      ready := ready s; op_n := op_n s; op_timeout := op_timeout s; ret_ctx_err := false; ret_n := 0 |}
+                      ready := ready s; half := half s; op_n := op_n s; op_timeout := op_timeout s; ret_ctx_err := false; ret_n := 0 |}
       | _ => None
       end
   | EM_wait_return =>
       (* wg.Wait returns once the watcher has exited; then: if e := ctx.Err(); e != nil && n == 0 { err = e } *)
       match mp s, wp s with
       | M7, WEnd => Some {| mp := MRet; wp := WEnd; cancelled := cancelled s; done_closed := done_closed s; dl_past := dl_past s;
-                            ready := ready s; op_n := op_n s; op_timeout := op_timeout s;
+                            ready := ready s; half := half s; op_n := op_n s; op_timeout := op_timeout s;
                             ret_ctx_err := cancelled s && (op_n s =? 0); ret_n := op_n s |}
       | _, _ => None
       end
@@ -89,33 +92,48 @@ Definition cxstep (s : cx) (e : cev) : option cx :=
   | EW_set_past =>
       match wp s with
       | WSetPast => Some {| mp := mp s; wp := W5; cancelled := cancelled s; done_closed := done_closed s; dl_past := true;
-                            ready := ready s; op_n := op_n s; op_timeout := op_timeout s; ret_ctx_err := ret_ctx_err s; ret_n := ret_n s |}
+                            ready := ready s; half := half s; op_n := op_n s; op_timeout := op_timeout s; ret_ctx_err := ret_ctx_err s; ret_n := ret_n s |}
       | _ => None
       end
   | EW_recv_done => match wp s with W5 => if done_closed s then Some (set_w s WRestore) else None | _ => None end
   | EW_restore =>
       match wp s with
       | WRestore => Some {| mp := mp s; wp := WEnd; cancelled := cancelled s; done_closed := done_closed s; dl_past := false;
-                            ready := ready s; op_n := op_n s; op_timeout := op_timeout s; ret_ctx_err := ret_ctx_err s; ret_n := ret_n s |}
+                            ready := ready s; half := half s; op_n := op_n s; op_timeout := op_timeout s; ret_ctx_err := ret_ctx_err s; ret_n := ret_n s |}
       | _ => None
       end
   | EN_cancel =>
-      Some {| mp := mp s; wp := wp s; cancelled := true; done_closed := done_closed s; dl_past := dl_past s; ready := ready s;
+      Some {| mp := mp s; wp := wp s; cancelled := true; done_closed := done_closed s; dl_past := dl_past s; ready := ready s; half := half s;
               op_n := op_n s; op_timeout := op_timeout s; ret_ctx_err := ret_ctx_err s; ret_n := ret_n s |}
   | EN_ready =>
-      Some {| mp := mp s; wp := wp s; cancelled := cancelled s; done_closed := done_closed s; dl_past := dl_past s; ready := true;
+      Some {| mp := mp s; wp := wp s; cancelled := cancelled s; done_closed := done_closed s; dl_past := dl_past s; ready := true; half := half s;
               op_n := op_n s; op_timeout := op_timeout s; ret_ctx_err := ret_ctx_err s; ret_n := ret_n s |}
   | EM_next =>
       match mp s with
-      | MRet => Some {| mp := M0; wp := WNone; cancelled := false; done_closed := false; dl_past := dl_past s; ready := ready s;
+      | MRet => Some {| mp := M0; wp := WNone; cancelled := false; done_closed := false; dl_past := dl_past s; ready := ready s; half := false;
                         op_n := 0; op_timeout := false; ret_ctx_err := false; ret_n := 0 |}
+      | _ => None
+      end
+  | EM_op_partial =>
+      match mp s with
+      | MOp => if dl_past s && half s then
+                 Some {| mp := M6; wp := wp s; cancelled := cancelled s; done_closed := done_closed s; dl_past := dl_past s;
+                         ready := ready s; half := false; op_n := 1; op_timeout := true; ret_ctx_err := false; ret_n := 0 |}
+               else None
+      | _ => None
+      end
+  | EN_half =>
+      match mp s with
+      | MOp => Some {| mp := mp s; wp := wp s; cancelled := cancelled s; done_closed := done_closed s; dl_past := dl_past s;
+                       ready := ready s; half := true; op_n := op_n s; op_timeout := op_timeout s; ret_ctx_err := ret_ctx_err s;
+                       ret_n := ret_n s |}
       | _ => None
       end
   end.
 
 Definition all_events : list cev :=
   [EM_lock; EM_check; EM_add; EM_go; EM_op_data; EM_op_timeout; EM_close_done; EM_wait_return;
-   EW_ctx; EW_done; EW_set_past; EW_recv_done; EW_restore; EN_cancel; EN_ready; EM_next].
+   EW_ctx; EW_done; EW_set_past; EW_recv_done; EW_restore; EN_cancel; EN_ready; EM_next; EM_op_partial; EN_half].
 
 Fixpoint cxrun (s : cx) (h : list cev) : option cx :=
   match h with
